@@ -188,6 +188,9 @@ Record bstate := {
   pubs : list (nat * pubrec);
   tasks : list (nat * nat * actor);      (* ghost: (publish, registration) of every async delivery goroutine *)
   entered : list (nat * regn);           (* ghost: every handler entry (publish, registration), oldest first *)
+  turnq : list (nat * list actor);       (* Async+Sequential: per registration, the delivery goroutines that have not finished, in dispatch order *)
+  turnlog : list (nat * actor);          (* ghost: every Async+Sequential dispatch (registration, goroutine), oldest first *)
+  turndone : list (nat * actor);         (* ghost: every finished Async+Sequential delivery, oldest first *)
   code : list (actor * list instr)
 }.
 
@@ -211,6 +214,18 @@ Definition handlers_of (s : bstate) (t : ty) : list regn :=
 Definition is_cancelled (s : bstate) (c : ctxref) : bool :=
   match c with CtxBg => false | CtxId i => memb i (cancelled s) end.
 
+(* the deliveries of an Async+Sequential registration that have been dispatched and have not finished, oldest first *)
+Definition queue (s : bstate) (rid : nat) : list actor :=
+  match assoc_get (turnq s) rid with Some q => q | None => [] end.
+(* whose turn it is *)
+Definition at_head (q : list actor) (a : actor) : bool :=
+  match q with b :: _ => Nat.eqb b a | [] => false end.
+(* the finished delivery goroutine a leaves the queue it heads (close(done)) *)
+Definition pop_turn (tq : list (nat * list actor)) (a : actor) : list (nat * list actor) :=
+  map (fun rq => (fst rq, if at_head (snd rq) a then tl (snd rq) else snd rq)) tq.
+Definition popped (tq : list (nat * list actor)) (a : actor) : list (nat * actor) :=
+  flat_map (fun rq => if at_head (snd rq) a then [(fst rq, a)] else []) tq.
+
 (* remove the first registration whose function is fn (Unsubscribe) *)
 Fixpoint remove_first_fn (l : list regn) (fn : nat) : option (list regn) :=
   match l with
@@ -226,12 +241,12 @@ Definition set_registry (s : bstate) (r : list (ty * list regn)) : bstate :=
   {| registry := r; next_rid := next_rid s; next_pid := next_pid s; next_actor := next_actor s; next_sid := next_sid s;
      executed := executed s; seqlocks := seqlocks s; inflight := inflight s; cancelled := cancelled s;
      store_log := store_log s; last_offset := last_offset s; store_mu := store_mu s; store_closed := store_closed s;
-     waiters_done := waiters_done s; pubs := pubs s; tasks := tasks s; entered := entered s; code := code s |}.
+     waiters_done := waiters_done s; pubs := pubs s; tasks := tasks s; entered := entered s; turnq := turnq s; turnlog := turnlog s; turndone := turndone s; code := code s |}.
 Definition set_code (s : bstate) (c : list (actor * list instr)) : bstate :=
   {| registry := registry s; next_rid := next_rid s; next_pid := next_pid s; next_actor := next_actor s; next_sid := next_sid s;
      executed := executed s; seqlocks := seqlocks s; inflight := inflight s; cancelled := cancelled s;
      store_log := store_log s; last_offset := last_offset s; store_mu := store_mu s; store_closed := store_closed s;
-     waiters_done := waiters_done s; pubs := pubs s; tasks := tasks s; entered := entered s; code := c |}.
+     waiters_done := waiters_done s; pubs := pubs s; tasks := tasks s; entered := entered s; turnq := turnq s; turnlog := turnlog s; turndone := turndone s; code := c |}.
 
 Definition body_of (P : program) (b : nat) : list action :=
   match assoc_get (p_bodies P) b with Some bd => b_acts bd | None => [] end.
@@ -264,7 +279,7 @@ Definition upd_pub (s : bstate) (p : nat) (f : pubrec -> pubrec) : bstate :=
     {| registry := registry s; next_rid := next_rid s; next_pid := next_pid s; next_actor := next_actor s; next_sid := next_sid s;
        executed := executed s; seqlocks := seqlocks s; inflight := inflight s; cancelled := cancelled s;
        store_log := store_log s; last_offset := last_offset s; store_mu := store_mu s; store_closed := store_closed s;
-       waiters_done := waiters_done s; pubs := assoc_set (pubs s) p (f r); tasks := tasks s; entered := entered s; code := code s |}
+       waiters_done := waiters_done s; pubs := assoc_set (pubs s) p (f r); tasks := tasks s; entered := entered s; turnq := turnq s; turnlog := turnlog s; turndone := turndone s; code := code s |}
   end.
 
 Definition pub_default : pubrec := {| pb_ty := 0; pb_val := 0; pb_ctx := CtxBg; pb_any := false; pb_claimed := [] |}.
@@ -299,7 +314,7 @@ Section Step.
                        next_sid := next_sid s; executed := executed s; seqlocks := seqlocks s; inflight := inflight s;
                        cancelled := cancelled s; store_log := store_log s; last_offset := last_offset s;
                        store_mu := store_mu s; store_closed := store_closed s; waiters_done := waiters_done s;
-                       pubs := pubs s; tasks := tasks s; entered := entered s; code := code s |} in
+                       pubs := pubs s; tasks := tasks s; entered := entered s; turnq := turnq s; turnlog := turnlog s; turndone := turndone s; code := code s |} in
           Some (cont s2 a rest, [])
       | AUnsub t fn =>
           match remove_first_fn (handlers_of s t) fn with
@@ -315,7 +330,7 @@ Section Step.
                         next_sid := next_sid s; executed := executed s; seqlocks := seqlocks s; inflight := inflight s;
                         cancelled := c :: cancelled s; store_log := store_log s; last_offset := last_offset s;
                         store_mu := store_mu s; store_closed := store_closed s; waiters_done := waiters_done s;
-                        pubs := pubs s; tasks := tasks s; entered := entered s; code := code s |} a rest, [])
+                        pubs := pubs s; tasks := tasks s; entered := entered s; turnq := turnq s; turnlog := turnlog s; turndone := turndone s; code := code s |} a rest, [])
       | AWait => if Nat.eqb (inflight s) 0 then Some (cont s a rest, []) else None
       | AShutdown c =>
           (* go func() { bus.Wait(); close(done) }() ; select *)
@@ -325,7 +340,7 @@ Section Step.
                        next_sid := S sid; executed := executed s; seqlocks := seqlocks s; inflight := inflight s;
                        cancelled := cancelled s; store_log := store_log s; last_offset := last_offset s;
                        store_mu := store_mu s; store_closed := store_closed s; waiters_done := waiters_done s;
-                       pubs := pubs s; tasks := tasks s; entered := entered s; code := assoc_set (code s) w [IWaiterDone sid] |} in
+                       pubs := pubs s; tasks := tasks s; entered := entered s; turnq := turnq s; turnlog := turnlog s; turndone := turndone s; code := assoc_set (code s) w [IWaiterDone sid] |} in
           Some (cont s1 a (IShutdownSelect sid c :: rest), [])
       | APanic v =>
           match unwind rest with
@@ -339,7 +354,7 @@ Section Step.
                        next_sid := next_sid s; executed := executed s; seqlocks := seqlocks s; inflight := inflight s;
                        cancelled := cancelled s; store_log := store_log s; last_offset := last_offset s;
                        store_mu := store_mu s; store_closed := store_closed s; waiters_done := waiters_done s;
-                       pubs := assoc_set (pubs s) p rec; tasks := tasks s; entered := entered s; code := code s |} in
+                       pubs := assoc_set (pubs s) p rec; tasks := tasks s; entered := entered s; turnq := turnq s; turnlog := turnlog s; turndone := turndone s; code := code s |} in
           Some (cont s1 a ((if c_obs cfg then [IPubStart p] else []) ++
                            (match c_before_legacy cfg with Some _ => [IBeforeLegacy p] | None => [] end) ++
                            (match c_before_ctx cfg with [] => [] | st => [IBeforeCtx p st] end) ++
@@ -369,7 +384,7 @@ Section Step.
                         next_sid := next_sid s; executed := executed s; seqlocks := seqlocks s; inflight := inflight s;
                         cancelled := cancelled s; store_log := store_log s; last_offset := last_offset s;
                         store_mu := Some a; store_closed := store_closed s; waiters_done := waiters_done s;
-                        pubs := pubs s; tasks := tasks s; entered := entered s; code := code s |} a (IPersistAppend p :: rest), [])
+                        pubs := pubs s; tasks := tasks s; entered := entered s; turnq := turnq s; turnlog := turnlog s; turndone := turndone s; code := code s |} a (IPersistAppend p :: rest), [])
         end
     | IPersistAppend p => Some (cont s a (IPersistAppendDone p :: rest), [LAppend p])
     | IPersistAppendDone p =>
@@ -382,7 +397,7 @@ Section Step.
                      cancelled := cancelled s; store_log := log';
                      last_offset := if failed then last_offset s else length log';
                      store_mu := None; store_closed := store_closed s; waiters_done := waiters_done s;
-                     pubs := pubs s; tasks := tasks s; entered := entered s; code := code s |} in
+                     pubs := pubs s; tasks := tasks s; entered := entered s; turnq := turnq s; turnlog := turnlog s; turndone := turndone s; code := code s |} in
         Some (cont s1 a ((if c_obs cfg then [IPersistObsDone p failed] else []) ++
                          (if failed && c_persist_err_handler cfg then [IPersistErr p] else []) ++ rest), [])
     | IPersistObsDone p failed => Some (cont s a rest, [LPersistDone p failed])
@@ -417,7 +432,7 @@ Section Step.
                          next_sid := next_sid s; executed := r_id h :: executed s; seqlocks := seqlocks s;
                          inflight := inflight s; cancelled := cancelled s; store_log := store_log s;
                          last_offset := last_offset s; store_mu := store_mu s; store_closed := store_closed s;
-                         waiters_done := waiters_done s; pubs := pubs s; tasks := tasks s; entered := entered s; code := code s |} in
+                         waiters_done := waiters_done s; pubs := pubs s; tasks := tasks s; entered := entered s; turnq := turnq s; turnlog := turnlog s; turndone := turndone s; code := code s |} in
             let s2 := upd_pub s1 p (fun r => {| pb_ty := pb_ty r; pb_val := pb_val r; pb_ctx := pb_ctx r; pb_any := pb_any r;
                                                pb_claimed := pb_claimed r ++ [r_id h] |}) in
             Some (cont s2 a (IDispatch p h :: rest), [])
@@ -431,6 +446,9 @@ Section Step.
                        inflight := S (inflight s); cancelled := cancelled s; store_log := store_log s;
                        last_offset := last_offset s; store_mu := store_mu s; store_closed := store_closed s;
                        waiters_done := waiters_done s; pubs := pubs s; tasks := tasks s ++ [(p, r_id h, t)]; entered := entered s;
+                     (* Sequential: the delivery is queued here, on the publishing goroutine *)
+                     turnq := if h_seq (r_spec h) then assoc_set (turnq s) (r_id h) (queue s (r_id h) ++ [t]) else turnq s;
+                     turnlog := if h_seq (r_spec h) then turnlog s ++ [(r_id h, t)] else turnlog s; turndone := turndone s;
                        code := assoc_set (code s) t [ITaskStart p h] |} in
           Some (cont s1 a rest, [])
         else if is_cancelled s (pb_ctx r) then Some (cont s a rest, [])
@@ -438,7 +456,9 @@ Section Step.
     | ITaskStart p h =>
         (* the goroutine checks the context first - except for a Once handler, which this publish has already claimed
            and retired while its context was live: it runs (and sees the cancelled context) *)
-        if is_cancelled s (pb_ctx (get_pub s p)) && negb (h_once (r_spec h)) then Some (cont s a (ITaskDone :: rest), [])
+        (* a Sequential delivery first waits until every delivery dispatched before it has finished *)
+        if h_seq (r_spec h) && negb (at_head (queue s (r_id h)) a) then None
+        else if is_cancelled s (pb_ctx (get_pub s p)) && negb (h_once (r_spec h)) then Some (cont s a (ITaskDone :: rest), [])
         else Some (cont s a (call_handler P p h true (c_obs cfg) ++ rest), [])
     | IHandlerStart p h async => Some (cont s a rest, [LHandlerStart p async])
     | ILock h =>
@@ -449,14 +469,14 @@ Section Step.
                         next_sid := next_sid s; executed := executed s; seqlocks := assoc_set (seqlocks s) (r_id h) a;
                         inflight := inflight s; cancelled := cancelled s; store_log := store_log s;
                         last_offset := last_offset s; store_mu := store_mu s; store_closed := store_closed s;
-                        waiters_done := waiters_done s; pubs := pubs s; tasks := tasks s; entered := entered s; code := code s |} a rest, [])
+                        waiters_done := waiters_done s; pubs := pubs s; tasks := tasks s; entered := entered s; turnq := turnq s; turnlog := turnlog s; turndone := turndone s; code := code s |} a rest, [])
         end
     | IEnter p h =>
         Some (cont {| registry := registry s; next_rid := next_rid s; next_pid := next_pid s; next_actor := next_actor s;
                       next_sid := next_sid s; executed := executed s; seqlocks := seqlocks s; inflight := inflight s;
                       cancelled := cancelled s; store_log := store_log s; last_offset := last_offset s;
                       store_mu := store_mu s; store_closed := store_closed s; waiters_done := waiters_done s;
-                      pubs := pubs s; tasks := tasks s; entered := entered s ++ [(p, h)]; code := code s |} a rest,
+                      pubs := pubs s; tasks := tasks s; entered := entered s ++ [(p, h)]; turnq := turnq s; turnlog := turnlog s; turndone := turndone s; code := code s |} a rest,
               [LEnter p (r_id h) (if h_ctx (r_spec h) then pb_ctx (get_pub s p) else CtxBg)])
     | IRecover p h async => Some (cont s a (after_recover cfg p h async false ++ rest), [])
     | IUnlock h =>
@@ -464,7 +484,7 @@ Section Step.
                       next_sid := next_sid s; executed := executed s; seqlocks := assoc_del (seqlocks s) (r_id h);
                       inflight := inflight s; cancelled := cancelled s; store_log := store_log s;
                       last_offset := last_offset s; store_mu := store_mu s; store_closed := store_closed s;
-                      waiters_done := waiters_done s; pubs := pubs s; tasks := tasks s; entered := entered s; code := code s |} a rest, [])
+                      waiters_done := waiters_done s; pubs := pubs s; tasks := tasks s; entered := entered s; turnq := turnq s; turnlog := turnlog s; turndone := turndone s; code := code s |} a rest, [])
     | IPanicHandler p h => Some (cont s a rest, [LPanicHandler p (r_id h)])
     | IHandlerDone p h panicked => Some (cont s a rest, [LHandlerDone p panicked])
     | ITaskDone =>
@@ -472,7 +492,9 @@ Section Step.
                       next_sid := next_sid s; executed := executed s; seqlocks := seqlocks s;
                       inflight := pred (inflight s); cancelled := cancelled s; store_log := store_log s;
                       last_offset := last_offset s; store_mu := store_mu s; store_closed := store_closed s;
-                      waiters_done := waiters_done s; pubs := pubs s; tasks := tasks s; entered := entered s; code := code s |} a rest, [])
+                      waiters_done := waiters_done s; pubs := pubs s; tasks := tasks s; entered := entered s;
+                      turnq := pop_turn (turnq s) a; turnlog := turnlog s; turndone := turndone s ++ popped (turnq s) a;
+                      code := code s |} a rest, [])
     | IRemoveOnce p =>
         let r := get_pub s p in
         match pb_claimed r with
@@ -494,7 +516,7 @@ Section Step.
                         next_sid := next_sid s; executed := executed s; seqlocks := seqlocks s; inflight := inflight s;
                         cancelled := cancelled s; store_log := store_log s; last_offset := last_offset s;
                         store_mu := store_mu s; store_closed := store_closed s; waiters_done := sid :: waiters_done s;
-                        pubs := pubs s; tasks := tasks s; entered := entered s; code := code s |} a rest, [])
+                        pubs := pubs s; tasks := tasks s; entered := entered s; turnq := turnq s; turnlog := turnlog s; turndone := turndone s; code := code s |} a rest, [])
         else None
     | IShutdownSelect sid c =>
         if memb sid (waiters_done s) then
@@ -503,7 +525,7 @@ Section Step.
                         next_sid := next_sid s; executed := executed s; seqlocks := seqlocks s; inflight := inflight s;
                         cancelled := cancelled s; store_log := store_log s; last_offset := last_offset s;
                         store_mu := store_mu s; store_closed := if c_store cfg then S (store_closed s) else store_closed s;
-                        waiters_done := waiters_done s; pubs := pubs s; tasks := tasks s; entered := entered s; code := code s |} a rest,
+                        waiters_done := waiters_done s; pubs := pubs s; tasks := tasks s; entered := entered s; turnq := turnq s; turnlog := turnlog s; turndone := turndone s; code := code s |} a rest,
                 (if c_store cfg then [LClose] else []) ++ [LRes (AShutdown c) 1])
         else if is_cancelled s c then Some (cont s a rest, [LRes (AShutdown c) 0])
         else None
@@ -530,5 +552,5 @@ End Step.
 Definition init_state (threads : list (list action)) : bstate :=
   {| registry := []; next_rid := 0; next_pid := 0; next_actor := length threads; next_sid := 0;
      executed := []; seqlocks := []; inflight := 0; cancelled := []; store_log := []; last_offset := 0;
-     store_mu := None; store_closed := 0; waiters_done := []; pubs := []; tasks := []; entered := [];
+     store_mu := None; store_closed := 0; waiters_done := []; pubs := []; tasks := []; entered := []; turnq := []; turnlog := []; turndone := [];
      code := combine (seq 0 (length threads)) (map acts threads) |}.
